@@ -246,6 +246,19 @@ impl Scenario for C02 {
             cx.probe("frame_with_consistent_length_neighbour");
             both_forms = true;
             length_neighbour_frame(cx)
+        } else if cx.chance(1, 16) {
+            // the heaviest frames there are: (almost) every field at its maximum, so that sums kept in
+            // wider integers reach their limits (255 data bytes of 0xFF, address and type near 0xFFFF / 0xFF)
+            cx.probe("frame_with_maximal_field_sum");
+            let len = *cx.pick(&[255usize, 255, 254]);
+            let mut d = vec![0xFFu8; len];
+            for _ in 0..cx.draw(3) {
+                let k = cx.draw(len as u64) as usize;
+                d[k] = 0xFF - cx.draw(3) as u8;
+            }
+            let a = *cx.pick(&[0xFFFFu16, 0xFFFE, 0xFEFF, 0xFFFF]);
+            let ty = *cx.pick(&[0xFFu8, 0x01, 0xFE, 0x80]);
+            flipdot_core::Frame::new(flipdot_core::Address(a), flipdot_core::MsgType(ty), crate::gens::data(d))
         } else if cx.chance(1, 24) {
             let len = *cx.pick(&[255usize, 254, 128]);
             flipdot_core::Frame::new(crate::gens::address(cx), flipdot_core::MsgType(cx.draw(256) as u8), crate::gens::data(cx.bytes(len)))
